@@ -276,7 +276,7 @@ func newRows(result *updog.Result, groupBy []string) *rows {
 		cols: append(groupBy, "count"),
 	}
 
-	if len(result.Groups) > 0 {
+	if len(groupBy) > 0 {
 		for _, rr := range result.Groups {
 			fields := []string{}
 			for _, f := range rr.Fields {
